@@ -885,15 +885,13 @@ func (in *Interp) eval0(st *State, e ast.Expr) *T {
 		case token.ADD:
 			return a
 		case token.NOT:
-			if a.Op == "un" && a.Name == "!" {
-				return a.Args[0]
-			}
 			if a.Op == "const" && a.Name == "true" {
 				return tConst("false")
 			}
 			if a.Op == "const" && a.Name == "false" {
 				return tConst("true")
 			}
+			return notT(a)
 		}
 		return tUn(x.Op.String(), a)
 	case *ast.BinaryExpr:
@@ -1116,15 +1114,24 @@ func (in *Interp) evalCall(st *State, call *ast.CallExpr, stmt bool) *T {
 	if recv != nil {
 		all = append([]*T{recv}, args...)
 	}
-	// inline tiny helpers when asked to
+	// inline helpers when asked to: the body runs in the caller's state (shared
+	// memory / model / effects) with the parameters bound; it is accepted when all
+	// normally returning paths agree on the returned terms
 	if in.Inline != nil && callee != nil && in.Inline(callee) && in.depth < 4 {
 		if fd := c.DeclOf(callee); fd != nil && fd.Body != nil {
+			sub := st.Clone()
+			saved := sub.Vars
+			sub.Vars = map[types.Object]*T{}
 			bind := map[string]*T{}
 			i := 0
 			if fd.Recv != nil && len(fd.Recv.List) == 1 && len(fd.Recv.List[0].Names) == 1 && recv != nil {
 				bind[fd.Recv.List[0].Names[0].Name] = recv
 			}
+			variadicOK := true
 			for _, f := range fd.Type.Params.List {
+				if _, isEll := f.Type.(*ast.Ellipsis); isEll {
+					variadicOK = false
+				}
 				for _, n := range f.Names {
 					if i < len(args) {
 						bind[n.Name] = args[i]
@@ -1132,17 +1139,56 @@ func (in *Interp) evalCall(st *State, call *ast.CallExpr, stmt bool) *T {
 					i++
 				}
 			}
-			in.depth++
-			sub := newState()
-			in.bindParams(sub, fd.Recv, fd.Type, bind)
-			res := in.execBody(fd.Body, fd.Type, sub)
-			in.depth--
-			if len(res) == 1 && res[0].Done == "return" && len(res[0].Eff) == 0 {
-				if len(res[0].Ret) == 1 {
-					return res[0].Ret[0]
+			if variadicOK && i == len(args) {
+				in.depth++
+				in.bindParams(sub, fd.Recv, fd.Type, bind)
+				res := in.execBody(fd.Body, fd.Type, sub)
+				in.depth--
+				var rets []*State
+				for _, r := range res {
+					if r.Done == "return" {
+						rets = append(rets, r)
+					}
 				}
-				if len(res[0].Ret) > 1 {
-					return &T{Op: "tuple", Name: "", Args: res[0].Ret}
+				agree := len(rets) >= 1
+				for _, r := range rets[min(1, len(rets)):] {
+					if len(r.Ret) != len(rets[0].Ret) {
+						agree = false
+						break
+					}
+					for k := range r.Ret {
+						if !r.Ret[k].Eq(rets[0].Ret[k]) {
+							agree = false
+						}
+					}
+				}
+				flagged := false
+				for _, r := range res {
+					for f := range r.Flags {
+						if strings.HasPrefix(f, "unsupported") {
+							flagged = true
+						}
+					}
+				}
+				if agree && !flagged && (len(rets) == 1 || len(rets[0].Eff) == len(st.Eff)) {
+					r0 := rets[0]
+					// adopt the callee's effects on shared state
+					st.Mem, st.Eff, st.X = r0.Mem, r0.Eff, r0.X
+					if len(rets) == 1 {
+						st.Conds = r0.Conds
+					}
+					for k, v := range r0.Flags {
+						st.Flags[k] = v
+					}
+					_ = saved
+					switch len(r0.Ret) {
+					case 0:
+						return &T{Op: "tuple", Name: "void"}
+					case 1:
+						return r0.Ret[0]
+					default:
+						return &T{Op: "tuple", Name: "", Args: r0.Ret}
+					}
 				}
 			}
 		}
@@ -1290,9 +1336,16 @@ func isParamOrRecv(c *Ctx, fd *ast.FuncDecl, o types.Object) bool {
 	return false
 }
 
+var flipCmp = map[string]string{"==": "!=", "!=": "==", "<": ">=", ">=": "<", ">": "<=", "<=": ">"}
+
 func notT(t *T) *T {
 	if t.Op == "un" && t.Name == "!" {
 		return t.Args[0]
+	}
+	if t.Op == "bin" && len(t.Args) == 2 {
+		if f, ok := flipCmp[t.Name]; ok {
+			return tBin(f, t.Args[0], t.Args[1])
+		}
 	}
 	return tUn("!", t)
 }
